@@ -249,8 +249,10 @@ class Driver:
             if not st.closed:
                 return None
             try:
-                st.c = Conn(self.daemon.path, uid=op.get('uid', 0), abstract=self.daemon.abstract,
-                            negotiate_fds=op.get('fdcap', False))
+                go = self.cfg.get('groups_of') or {}
+                u = op.get('uid', 0)
+                st.c = Conn(self.daemon.path, uid=u, abstract=self.daemon.abstract,
+                            negotiate_fds=op.get('fdcap', False), gids=go.get(u, go.get(str(u))))
             except (IOError, OSError) as e:
                 return {'k': 'connect_failed', 'uid': op.get('uid', 0), 'why': str(e)}
             st.closed = False
